@@ -174,9 +174,9 @@ add("C11", "E1",
     ".byte directive, truncated byte sequence, marker mov + instruction, comment, label) x 7 marker "
     "styles (bytes on one/several lines, odd spacing, comment markers, only start, only end, none) x "
     "3 bodies x 2 ISAs, reduce_to_section compared with the constructed slice; (b) every --lines "
-    "string of <= 3 items over numbers 1..6 (thorough 1..8) against a reference set; (c) marked / "
+    "string of <= 3 items over line numbers {1..3 (thorough 1..5), 9, 10, 11, 100} against a reference set; (c) marked / "
     "--lines (incl. descending and overlapping pieces) / extracted-only / noise-line variants (comment, "
-    "label, directive, blank at every position) through osaca.run give identical per-instruction and "
+    "label, directive, blank at every position, and 50-60 noise lines lifting the kernel over the 50-line threshold of the multi-process search) through osaca.run give identical per-instruction and "
     "summary numbers (quick: zen1, n1; thorough: every shipped model).",
     "Trusted: the file constructors in mc/checks/c11.py and the report parser mc/ref/report.py.",
     "DESIGN.md §4 C11")
